@@ -91,12 +91,11 @@ def defensesOf (L : Lang) (t : String) : List (String × String) :=
     (fun e => (e.1, if e.2.ttcName = some "Enabled" then "1.0" else "0.0"))
 
 /-- pjs guard on a field assignment: members are of the declared type or a subtype, at most `max` of them
-(`maxItems` is only emitted for a non-zero maximum) -/
+(`maxItems` is emitted for every declared maximum, 0 included: fix 6ddb0c4) -/
 def okMember (L : Lang) (declared : String) (t : String) : Bool := L.isSub t declared
 def okCount (max : Option Nat) (n : Nat) : Bool :=
   match max with
   | none => true
-  | some 0 => true
   | some k => n ≤ k
 
 /-! ### operations -/
